@@ -11,6 +11,7 @@ structure S where
   names : List (String × String) := []
   model : St := {}
   started : Bool := false
+  poolShares : FMap String := []     -- by share denom: the pool's recorded total shares after the previous block
   deriving Inhabited
 
 def nameOf (s : S) (addr : String) : String := match s.names.find? (fun p => p.1 == addr) with | some p => p.2 | none => addr
@@ -43,7 +44,7 @@ def handle (s : S) (i : Nat) (j : Json) : S × List Json :=
   match fStr? j "t" with
   | some "hist.begin" =>
     let o := Snapshot.parse (fld j "obs")
-    ({ names := parseNames j, model := { supply := o.supply }, started := true }, [verdictOk i])
+    ({ names := parseNames j, model := { supply := o.supply }, started := true, poolShares := o.ammPools.map (fun p => (p.shareDenom, p.shares)) }, [verdictOk i])
   | some "hist.step" =>
     if !s.started then (s, [verdictBad i "hist.step before hist.begin"]) else
     let st := parseStep j
@@ -72,8 +73,15 @@ def handle (s : S) (i : Nat) (j : Json) : S × List Json :=
       (match ds.find? (fun d => classify d == .external && st.obs.supply.get d != s.model.supply.get d && burnerExt.isEmpty) with
        | some d => [verdictViol i "C15.external_conserved" (Json.mkObj [("denom", d), ("before", mkInt (s.model.supply.get d)), ("after", mkInt (st.obs.supply.get d)), ("burner", "none")])]
        | none => [])
+    -- "share tokens are minted and burned only against deposits and withdrawals of the same pool": over a block the supply of a pool's
+    -- share denom moves by exactly what the pool's own share book (TotalShares) moves
+    let viols := viols ++ (match st.obs.ammPools.find? (fun p =>
+        st.obs.supply.get p.shareDenom - s.model.supply.get p.shareDenom != p.shares - s.poolShares.get p.shareDenom) with
+      | some p => [verdictViol i "C15.share_paired" (Json.mkObj [("pool", Json.num p.id), ("supplyChange", mkInt (st.obs.supply.get p.shareDenom - s.model.supply.get p.shareDenom)),
+                     ("poolTotalSharesChange", mkInt (p.shares - s.poolShares.get p.shareDenom))])]
+      | none => [])
     let vs := diffs ++ viols
-    ({ s with model := { supply := st.obs.supply } }, if vs.isEmpty then [verdictOk i] else vs)
+    ({ s with model := { supply := st.obs.supply }, poolShares := st.obs.ammPools.map (fun p => (p.shareDenom, p.shares)) }, if vs.isEmpty then [verdictOk i] else vs)
   | some "stats" => (s, [])
   | _ => (s, [verdictBad i "unknown t"])
 
